@@ -13,10 +13,13 @@ def first_sentence(text: str, limit: int = 230) -> str:
     text = re.sub(r'^(Change|Refactoring|Seed|Patch)\s+[A-D]\s*[-:–—]+\s*', '', text)
     text = text.replace('\n', ' ').replace('|', '/')
     text = re.sub(r'\s+', ' ', text)
+    text = re.sub(r'^(Change|Refactoring|Seed|Patch)\s+[A-D]\s*', '', text)
     cut = re.split(r'(?<=[.])\s+(?=[A-Z`])', text)
     out = cut[0]
-    if len(out) < 90 and len(cut) > 1:
-        out += ' ' + cut[1]
+    k = 1
+    while (len(out) < 90 or (out.startswith('(') or out.endswith(').') or out.endswith('not a revert).'))) and k < len(cut) and len(out) < limit:
+        out += ' ' + cut[k]
+        k += 1
     return (out[:limit - 1] + '…') if len(out) > limit else out
 
 
@@ -28,6 +31,12 @@ def rows(kind: str):
         if kind == 'hard' and '-r2' not in d.name:
             continue
         if kind == 'hard3' and '-r3' not in d.name:
+            continue
+        if kind == 'hard4' and '-r4' not in d.name:
+            continue
+        if kind == 'benign4' and '-b4' not in d.name:
+            continue
+        if kind in ('benign', 'benign3') and '-b4' in d.name:
             continue
         m = json.load(open(d / 'meta.json'))
         if kind == 'benign3' and m['property'] not in ('C01', 'C11', 'C12', 'C15', 'C18', 'C19'):
@@ -44,7 +53,7 @@ def rows(kind: str):
             verdict = '/'.join(own.get('rules', [])) or 'MISSED'
             if others:
                 verdict += ' (also ' + ', '.join(others) + ')'
-        yield d.name, first_sentence(m.get('needs_to_manifest', '')), verdict
+        yield d.name, first_sentence(m.get('needs_to_manifest', ''), 420 if kind.endswith('4') else 230), verdict
 
 
 kind = sys.argv[1] if len(sys.argv) > 1 else 'hard'
